@@ -153,6 +153,30 @@ package app
 //@   assert before SetBodyStream: rgApplied && 0 <= rgStart && rgStart <= rgEnd && rgEnd < 4611686018427387904 ==> arg2 == rgEnd - rgStart + 1
 //@   assert before ResponseHeader.SetContentLength: rgApplied && 0 <= rgStart && rgStart <= rgEnd && rgEnd < 4611686018427387904 ==> arg1 == rgEnd - rgStart + 1
 
+// C08 (a compressed sibling is served only while it mirrors the file): openFSFile hands the ".hertz.gz" file to
+// newFSFile only when its modification time is identical to that of the original (the handler stamps the
+// artefact with the original's time when it creates it); any difference - older or newer - re-creates it.
+// mtA*/mtB*: the three words of the two time.Time values returned by the two ModTime calls.
+//@ ghost var mtA0 int scratch
+//@ ghost var mtA1 int scratch
+//@ ghost var mtB0 int scratch
+//@ ghost var mtB1 int scratch
+//@ ghost var mtSeen int
+//@ func fsHandler.openFSFile(h, filePath, mustCompress) r, err
+//@   props C08
+//@   abstract
+//@   noinline
+//@   panics
+//@   modifies mtA0, mtA1, mtB0, mtB1, mtSeen
+//@   ghostset-at-entry mtSeen = 0
+//@   ghostset after ModTime#0: mtA0 = result0
+//@   ghostset after ModTime#0: mtA1 = result1
+//@   ghostset after ModTime#0: mtSeen = 1
+//@   ghostset after ModTime#1: mtB0 = result0
+//@   ghostset after ModTime#1: mtB1 = result1
+//@   ghostset after ModTime#1: mtSeen = 2
+//@   assert before newFSFile: mustCompress ==> mtSeen == 2 && mtA0 == mtB0 && mtA1 == mtB1 && arg3
+
 // C08 (which reader serves a cached entry): a generated directory listing has no backing file and is always
 // served by the small-file reader; the big-file reader is chosen only for file-backed entries, so its
 // "file must be non-nil" panic is unreachable. ffInv: an entry without listing bytes has its file.
